@@ -27,8 +27,10 @@ INC = os.path.join(REPO, "include")
 SPEC = os.path.join(ROOT, "spec")
 HARNESS = os.path.join(ROOT, "harness")
 CACHE = os.path.join(ROOT, ".cache")
-OUT = os.path.join(ROOT, "out")
-EVID = os.path.join(ROOT, "evidence")
+# VERIF_OUT redirects replay artefacts *and* evidence (used when checks run against a mutated scratch copy, so that the
+# evidence of the real tree is never overwritten)
+OUT = os.path.join(os.environ["VERIF_OUT"], "out") if os.environ.get("VERIF_OUT") else os.path.join(ROOT, "out")
+EVID = os.path.join(os.environ["VERIF_OUT"], "evidence") if os.environ.get("VERIF_OUT") else os.path.join(ROOT, "evidence")
 TLA_CP = "/opt/veriftools/tla/tla2tools.jar:/opt/veriftools/tla/CommunityModules-deps.jar"
 CXX = os.environ.get("VERIF_CXX", "g++")
 CXXFLAGS = ["-std=c++11", "-O1", "-g0", "-w", "-pthread"]
